@@ -146,7 +146,9 @@ Lemma on_event_gap s i o0 o w err :
   gap (fst (on_event s i o w err)) = gap s + wobj o0 - wobj o.
 Proof.
   intros Hl. unfold on_event.
-  set (o1 := if w then with_wr o (o_wr o) (o_evW o) false else with_rd o (o_rd o) (o_evR o) false).
+  cbv zeta.
+  set (rg := if o_evR o || o_evW o then o_reg o else false).
+  set (o1 := if w then with_wr o (o_wr o) (o_evW o) rg else with_rd o (o_rd o) (o_evR o) rg).
   assert (Ho1 : wobj o1 = wobj o) by (unfold o1; destruct w; reflexivity).
   assert (Hg : gap (set_obj s i o1) = gap s + wobj o0 - wobj o) by (rewrite gap_set_obj, Hl; lia).
   destruct (if w then o_wr o else o_rd o) as [p|]; [|exact Hg].
